@@ -78,7 +78,11 @@ ARG_VARIANTS = [
     ("rinex3_obs", "rinex3_obs", {"sampling_rate": 60}), ("rinex3_obs", "rinex3_obs", {"convert_unit": True}),
     ("sinex_site", "sinex_site", {"header": False}), ("sinex_discontinuities", "sinex_discontinuities", {"header": False}),
     ("terrapos_position", "terrapos_position", {"station": "abcd"}), ("csv_", "csv_", {"encoding": "latin-1"}),
+    ("rinex3_obs", "rinex3_obs", {"sampling_rate": 30, "convert_unit": True}),
+    ("wip_rinex3_obs", "rinex3_obs", {"sampling_rate": 60}),
 ]
+# thorough only (big file)
+ARG_VARIANTS_THOROUGH = [("rinex2_obs", "rinex2_obs", {"convert_unit": True}), ("rinex2_obs", "rinex2_obs", {"sampling_rate": 300})]
 HEAVY_BYTES = 300_000
 
 
@@ -185,7 +189,7 @@ def build_jobs(ctx, names):
     for n in sorted(EXTRA_FILES):
         for f in EXTRA_FILES[n]:
             add(n, f)
-    for n, f, a in ARG_VARIANTS:
+    for n, f, a in ARG_VARIANTS + ([] if ctx is None or ctx.quick() else ARG_VARIANTS_THOROUGH):
         add(n, f, a)
     return jobs
 
@@ -279,6 +283,77 @@ def make_variants(text, rng):
     return out
 
 
+# ----------------------------------------------------------------------------------------------- generated RINEX 3, hash seeds
+def mixed_rinex3(rng):
+    """RINEX 3.03 observation file with GPS, BeiDou and Galileo satellites in which GPS and BeiDou both track the code L2X
+    (GPS L2C 1227.60 MHz, BeiDou B1 1561.098 MHz) and all three track C1X/L1X: anything that is looked up per observation
+    type instead of per (system, type) gives a result that depends on the order in which the systems are visited."""
+    hdr = [
+        "     3.03           OBSERVATION DATA    M                   RINEX VERSION / TYPE",
+        "c16check            verif               20180921 100314 UTC PGM / RUN BY / DATE",
+        "GENR                                                        MARKER NAME",
+        "12345M001                                                   MARKER NUMBER",
+        "verif               verif                                   OBSERVER / AGENCY",
+        "                    TRIMBLE NETR9                           REC # / TYPE / VERS",
+        "                    TRM55971.00     NONE                    ANT # / TYPE",
+        "  2820173.5383   513486.3516  5678940.7064                  APPROX POSITION XYZ",
+        "        0.0000        0.0000        0.0000                  ANTENNA: DELTA H/E/N",
+        "C    4 C2X L2X C1X L1X                                      SYS / # / OBS TYPES",
+        "E    2 C1X L1X                                              SYS / # / OBS TYPES",
+        "G    4 C2X L2X C1X L1X                                      SYS / # / OBS TYPES",
+        "    30.000                                                  INTERVAL",
+        "  2018     2     1     0     0    0.0000000     GPS         TIME OF FIRST OBS",
+        "                                                            END OF HEADER",
+    ]
+    sats = ["C05", "C06", "E11", "G07", "G08", "G21"]
+    out = list(hdr)
+    for ep in range(4):
+        out.append(f"> 2018  2  1  0 {ep // 2:2d} {(ep % 2) * 30:2d}.0000000  0 {len(sats):2d}")
+        for s_ in sats:
+            n = 2 if s_[0] == "E" else 4
+            cells = ""
+            for k in range(n):
+                v = rng.randrange(20_000_000_000, 40_000_000_000) if k % 2 == 0 else rng.randrange(90_000_000_000, 220_000_000_000)
+                cells += f"{v / 1000:14.3f} {rng.randrange(4, 9)}"
+            out.append(s_ + cells)
+    return "\n".join(out) + "\n"
+
+
+def diverse_hash_seeds(n_each=2, upto=48):
+    """hash seeds under which a set of two one-letter strings iterates in either order (n_each of both kinds)"""
+    def order(k):
+        env = dict(os.environ, PYTHONHASHSEED=str(k))
+        try:
+            return subprocess.run([sys.executable, "-S", "-c", "print(''.join(set('GC')))"], env=env, capture_output=True, text=True,
+                                  timeout=60).stdout.strip()
+        except subprocess.TimeoutExpired:
+            return ""
+    ks = list(range(1, upto + 1))
+    got = {}
+    for k, o in zip(ks, pmap(order, ks)):
+        if o and len(got.setdefault(o, [])) < n_each:
+            got[o].append(k)
+    return sorted(k for v in got.values() for k in v)
+
+
+def nonascii_variant(text):
+    """the same file with one non-ASCII character: in the first comment line, else in the first word of the last line"""
+    lines = text.split("\n")
+    for i, l in enumerate(lines[1:], 1):
+        if l[:1] in "#*%!" and l.strip():
+            lines[i] = l.rstrip() + " B\u00f8hm \u00d8"
+            return "\n".join(lines)
+    body = [i for i, l in enumerate(lines) if l.strip()]
+    if body:
+        i = body[-1]
+        import re
+        m = re.search(r"[A-Za-z]{2,}", lines[i])
+        if m:
+            lines[i] = lines[i][:m.start()] + "\u00d8" + lines[i][m.start() + 1:]
+            return "\n".join(lines)
+    return None
+
+
 # ----------------------------------------------------------------------------------------------- histories
 A_SEQ = ["cA", "pA", "mA"]
 B_SEQ = ["cB", "pB"]
@@ -340,6 +415,13 @@ def cache_history(jc, jplain, jother, base):
             ("parse_file", base + 3, jc)]
     ops += [("drop", base + k, None) for k in range(5)]
     return ops
+
+
+def encoding_history(jx, jy, base):
+    """the same parser and file with two different `encoding` arguments: X, Y, X again"""
+    ops = [("parse_file", base, jx), ("mutate", base, None), ("parse_file", base + 1, jy), ("mutate", base + 1, None),
+           ("parse_file", base + 2, jx)]
+    return ops + [("drop", base + k, None) for k in range(3)]
 
 
 def reparse_history(ja, base):
@@ -588,6 +670,90 @@ def run(ctx):
         corpus.append(dict(c, digest=a["digest"], content=a["file_before"], opaque=a.get("opaque", {}), empty=False))
     ctx.count("jobs:use_cache", len(corpus) - n1)
 
+    def add_jobs(cands, flag):
+        """fresh interpreter for each candidate job; the ones that parse join the corpus (index >= n0) carrying `flag`"""
+        added = []
+        for c, a in zip(cands, pmap(fresh, [(c, "0") for c in cands])):
+            if "worker_error" in a or "exc" in a or a.get("file_before") != a.get("file_after"):
+                ctx.count(f"{flag}:rejected(does not parse)")
+                continue
+            corpus.append(dict(c, digest=a["digest"], content=a["file_before"], opaque=a.get("opaque", {}), empty=False, **{flag: True}))
+            added.append(len(corpus) - 1)
+        return added
+
+    def mkjob(parser, fname, path, args):
+        return dict(parser=parser, fname=fname, file=path, args=args, argkey=json.dumps(args, sort_keys=True))
+
+    # ---- a generated mixed GPS + BeiDou + Galileo RINEX 3 file (shared code on different frequencies), with the parser options
+    gen_idx = []
+    if "rinex3_obs" in names:
+        gpath = os.path.join(vdir, "rinex3_obs__generated_mixed_GCE")
+        with open(gpath, "w") as f:
+            f.write(mixed_rinex3(__import__("random").Random(f"{ctx.seed}:mixed")))
+        gen_idx = add_jobs([mkjob("rinex3_obs", "rinex3_obs__generated_mixed_GCE", gpath, a)
+                            for a in ({}, {"convert_unit": True}, {"sampling_rate": 60, "convert_unit": True})], "generated")
+
+    # ---- several hash seeds for the jobs with parser options: the reference must not depend on PYTHONHASHSEED
+    div = diverse_hash_seeds(2)
+    ctx.count("hash_seeds:diverse", len(div))
+    seed_jobs = [(k, sd) for k in gen_idx for sd in div + [20260930]]
+    opt_jobs = [k for k in range(n0) if corpus[k]["args"]]
+    seed_jobs += [(k, sd) for k in opt_jobs for sd in (div[:2] if quick else div + [20260930])]
+    for (k, sd), r in zip(seed_jobs, pmap(fresh, [(corpus[k], str(sd)) for k, sd in seed_jobs])):
+        ctx.case(("SEED", corpus[k]["parser"], corpus[k]["fname"], corpus[k]["argkey"], sd), nontrivial=True)
+        if r.get("digest") != corpus[k]["digest"]:
+            j = corpus[k]
+            label = f"{j['parser']}({j['fname']}, {j['argkey']})"
+            ctx.violation({"kind": "fresh_nondeterministic", "job": label, "file": j["file"], "args": j["args"],
+                           "hash_seed_0": j["digest"], f"hash_seed_{sd}": r.get("parts") or r.get("exc") or r,
+                           "how": f"PYTHONHASHSEED=0 / PYTHONHASHSEED={sd}  {sys.executable} {WORKER} fresh "
+                                  f"'{json.dumps(dict(parser=j['parser'], file=j['file'], args=j['args']))}'"},
+                          what=f"two fresh interpreters that differ only in PYTHONHASHSEED (0 / {sd}) disagree on {label}")
+
+    # ---- the `encoding` argument varied for one parser and file (all LineParser-family parsers; thorough: every parser)
+    base_of = {r["name"]: r.get("base", "") for r in table["parser"]["rows"]}
+    enc_groups = []
+    firsts = {}
+    for k in range(n0):
+        j = corpus[k]
+        if not j["args"] and j["parser"] not in firsts and os.path.getsize(j["file"]) <= VARIANT_MAX_BYTES and not j["empty"]:
+            firsts[j["parser"]] = k
+    others = sorted(p_ for p_ in firsts if base_of.get(p_) != "LineParser")
+    chosen = sorted(p_ for p_ in firsts if base_of.get(p_) == "LineParser") + (others if not quick else rng.sample(others, min(3, len(others))))
+    with_na = set(chosen) if not quick else set(rng.sample(chosen, min(4, len(chosen))))
+    cands, owner_ = [], []
+    for p_ in chosen:
+        k = firsts[p_]
+        j = corpus[k]
+        files_ = [(j["fname"], j["file"], k)]
+        if p_ in with_na:
+            try:
+                na = nonascii_variant(open(j["file"], encoding="utf8", errors="surrogateescape").read())
+            except OSError:
+                na = None
+            if na is not None:
+                npath = os.path.join(vdir, j["fname"] + "__nonascii")
+                with open(npath, "w", encoding="utf8", errors="surrogateescape") as f:
+                    f.write(na)
+                files_.append((j["fname"] + "__nonascii", npath, None))
+        for fname_, path_, kdef in files_:
+            gid = len(enc_groups)
+            enc_groups.append([kdef] if kdef is not None else [])
+            for a in ([] if kdef is not None else [{}]) + [{"encoding": "latin-1"}, {"encoding": "utf-8"}]:
+                cands.append(mkjob(p_, fname_, path_, a))
+                owner_.append(gid)
+    before = len(corpus)
+    added = add_jobs(cands, "enc")
+    # map the added corpus indices back to their groups (add_jobs keeps the order of the candidates that parse)
+    ai = iter(added)
+    parsed_flags = [any(corpus[x]["fname"] == c["fname"] and corpus[x]["argkey"] == c["argkey"] and corpus[x]["parser"] == c["parser"]
+                        for x in added) for c in cands]
+    for c, gid, ok_ in zip(cands, owner_, parsed_flags):
+        if ok_:
+            enc_groups[gid].append(next(ai))
+    ctx.count("jobs:encoding", len(corpus) - before)
+    ctx.log(f"generated / option / encoding jobs: {len(corpus) - n1} more references, {len(seed_jobs)} extra hash-seed runs")
+
     pidx = {n: k for k, n in enumerate(sorted({j["parser"] for j in corpus}))}
     fidx = {f: k for k, f in enumerate(sorted({j["file"] for j in corpus}))}
     aidx = {a: k for k, a in enumerate(sorted({j["argkey"] for j in corpus}))}
@@ -639,7 +805,7 @@ def run(ctx):
         # per parser: its example files and their variants - every ordered pair X -> Y -> X (with / without the optional records)
         groups = {}
         for k, j in enumerate(corpus):
-            if "cached_of" not in j:
+            if "cached_of" not in j and "enc" not in j:
                 groups.setdefault(j["parser"], []).append(k)
         for pname, members in sorted(groups.items()):
             if not any(k >= n0 for k in members):
@@ -658,6 +824,12 @@ def run(ctx):
         for _ in range(min(len(cached), 6) if quick else 4 * len(cached)):
             c, d = rng.choice(cached), rng.choice(cached)
             push({"shape": "use_cache", "A": c, "B": d}, lambda b0, c=c, d=d: cache_history(c, corpus[c]["cached_of"], d, b0))
+        # the encoding argument varied between the parses of one parser and file: X, Y, X for every ordered pair
+        for grp in enc_groups:
+            for x in grp:
+                for y in grp:
+                    if x != y:
+                        push({"shape": "encoding", "A": x, "B": y}, lambda b0, x=x, y=y: encoding_history(x, y, b0))
         light = [k for k in range(n) if k not in heavy]
         by_fam = {}
         for k in light:
